@@ -26,7 +26,7 @@ PROP = "C20"
 OPTIONS = {"project": "W", "src_dir": "./src", "output_dir": "./doc", "preprocess": False, "parallel": 0,
            "search": False, "graph": False}
 PREFIX = "zz"
-STATED = {"trunc_stmt", "trunc_byte", "splice", "lost_block", "byteflip", "undecodable", "empty", "whitespace",
+STATED = {"copy_end_at_eof", "copy_trunc_stmt", "copy_extra_end", "copy_trunc_byte", "trunc_stmt", "trunc_byte", "splice", "lost_block", "byteflip", "undecodable", "empty", "whitespace",
           "extra_end", "missing_end", "dup_contains", "misplaced_contains", "malformed", "binary", "long_line",
           "crlf_mix"}
 
@@ -64,6 +64,25 @@ def gen_case(seed, idx):
             entry["files"][name] = content
             entry["kinds"][name] = kind + "@" + pos
         sets.append(entry)
+    # damaged *copies of the valid files themselves* (a truncated backup, an older copy with a stray END):
+    # they define the same names as the valid files, so containment is only asserted when FORD rejects them
+    for j in range(4):
+        v = frng.choice(valid)
+        text = src[v]
+        lines = text.split("\n")
+        how = frng.choice(["end_at_eof", "end_at_eof", "trunc_stmt", "trunc_stmt", "extra_end", "trunc_byte"])
+        if how == "end_at_eof":
+            dmg = text + frng.choice(["end\n", "end module\n", "end subroutine nothing\n", "contains\nend\n"])
+        elif how == "trunc_stmt":
+            dmg = "\n".join(lines[: frng.randrange(1, len(lines))]) + "\n"
+        elif how == "extra_end":
+            i = frng.randrange(0, len(lines))
+            dmg = "\n".join(lines[:i] + [frng.choice(["end", "end module", "end type", "end interface"])] + lines[i:]) + "\n"
+        else:
+            dmg = text[: frng.randrange(1, len(text))]
+        pos = frng.choice(["first", "first", "last"])
+        name = "src/%s_copy%d.f90" % ("aaa" if pos == "first" else "zzzz", j)
+        sets.append({"files": {name: dmg}, "kinds": {name: "copy_%s@%s" % (how, pos)}, "copy_of_valid": True})
     # I/O faults on an otherwise valid extra file
     io = []
     for j in range(2):
@@ -197,6 +216,12 @@ def evaluate(case, seed, workdir, sets=None, io=None, full=False):
                 out["findings"].append(("run-crashed-after-reject/%s/after-%s" % (c["cls"], c["stage_reached"]),
                                         "all damaged files %s were rejected, yet the run dies afterwards: %s: %s" % (names, c["cls"], c["msg"][:200]), dict(detail, rerun=rerun, crash=c)))
             continue
+        if typ == "set" and m.get("copy_of_valid") and len(rejected) < len(names):
+            # an accepted copy defines the same names as the valid file: differences are legitimate clashes
+            out["probes"]["accepted_copy_of_valid"] = out["probes"].get("accepted_copy_of_valid", 0) + 1
+            continue
+        if typ == "set" and m.get("copy_of_valid"):
+            out["probes"]["rejected_copy_of_valid"] = out["probes"].get("rejected_copy_of_valid", 0) + 1
         if json.dumps(d["files"], sort_keys=True) != ref_files:
             bad = [f for f in valid if json.dumps(d["files"].get(f), sort_keys=True) != json.dumps(b["dump"]["files"].get(f), sort_keys=True)]
             out["findings"].append(("containment/tree/%s" % ("rejected" if len(rejected) == len(names) else "accepted"),
@@ -207,7 +232,7 @@ def evaluate(case, seed, workdir, sets=None, io=None, full=False):
     # sampled full HTML runs: all-rejected sets must leave the whole output tree byte-identical
     if full:
         full_sets = [s for s in sets if all(isinstance(c, dict) or s["kinds"][n].split("@")[0] in ("undecodable", "binary", "directory") for n, c in s["files"].items())][:2]
-        if full_sets:
+        if full_sets or io:
             fspec = {"sandbox": sb, "cwd": sb + "/p", "argv": ["ford", "proj.md"], "mode": "full",
                      "order_plan": {"mode": "sorted"}, "dir_order": "sorted", "clock": {"seed": 0}}
             O.wipe(sb)
@@ -234,13 +259,37 @@ def evaluate(case, seed, workdir, sets=None, io=None, full=False):
                     diff = sorted(k for k in set(d0) | set(d1) if d0.get(k) != d1.get(k))[:8]
                     out["findings"].append(("containment/full-html", "complete HTML output differs (or the run fails: %s) when only rejected damaged file(s) %s are added; differing: %s"
                                             % (r1["result"]["outcome"], sorted(s["files"]), diff), {"damaged": s["files"], "kinds": s["kinds"], "rerun": {"sets": [s], "io": []}}))
+            # the same for an extra file that becomes unreadable / vanishes at its first or second open():
+            # it must be reported and skipped, leaving the complete output identical to the run without it
+            for f in io[:2]:
+                f2 = dict(files)
+                f2["p/" + f["file"]] = f["text"]
+                O.wipe(sb)
+                O.materialise(f2, sb)
+                ispec = dict(fspec, faults=[{"kind": "open-r", "path_re": os.path.basename(f["file"]).replace(".", r"\.") + "$",
+                                             "nth": f["nth"], "action": "errno", "errno": f["errno"]}])
+                r1 = O.run_cold(ispec, os.path.join(workdir, "work"), tag="fullio")
+                d1 = O.tree_digest(sb + "/p/doc")
+                out["n"] += 1
+                out["cold"] += 1
+                out["probes"]["full_html_io_runs"] = out["probes"].get("full_html_io_runs", 0) + 1
+                if r0["status"] != "ok" or r1["status"] != "ok":
+                    out["harness"].append("full io run status %s/%s" % (r0["status"], r1["status"]))
+                    continue
+                if not r1["result"].get("fired"):
+                    continue
+                k0, k1 = r0["result"]["outcome"]["kind"], r1["result"]["outcome"]["kind"]
+                if k0 == "ok" and (k1 != "ok" or d0 != d1):
+                    diff = sorted(k for k in set(d0) | set(d1) if d0.get(k) != d1.get(k))[:8]
+                    out["findings"].append(("containment/full-html-io", "complete HTML output differs (or the run fails: %s) when an extra file hits %s at open #%d; differing: %s"
+                                            % (json.dumps(r1["result"]["outcome"])[:300], f["errno"], f["nth"], diff), {"io": f, "rerun": {"sets": [], "io": [f]}}))
     return out
 
 
 def world_task(seed, idx, tier, batch):
     workdir = os.path.join(batch, "w%d" % idx)
     case = gen_case(seed, idx)
-    r = evaluate(case, seed, workdir, full=(tier == "thorough" and idx % 4 == 0) or idx % 16 == 0)
+    r = evaluate(case, seed, workdir, full=(tier == "thorough" and idx % 4 == 0) or idx % 10 == 0)
     r["idx"] = idx
     s0 = case["sets"][0]
     r["sample"] = {"valid_files": sorted(W.render_sources(case["world"], seeds.stream(seed, PROP, idx, "render"))),
